@@ -197,5 +197,32 @@ def run(ctx):
                         ctx.violation({"op": "dp", "via": how, "labels": name},
                                       "dp = %g on a grid labelled %s (%s): not the coordinate of the largest frequency-summed bin %s" % (g, name, D2, [relabel(d) for d in v["dp"]]),
                                       {"F": v["F"], "D": D2, "E": v["E"]})
+    # ---- the frequency axis stored from high to low (a file ordered by period, sortby(freq, ascending=False)): the peak is a property
+    # of the labelled spectrum, so the peak statistics that are defined bin-wise (they involve no integration width) are what they are on
+    # the ascending axis.  (Integrated statistics assume ascending frequencies in this library - hs is NaN there - and are not compared.)
+    for (F, D), vs in groups.items():
+        sub = vs[:120]
+        batch = L.build_batch(list(F), list(D), [v["E"] for v in sub])
+        rev = batch.isel(freq=slice(None, None, -1))
+        calls = {"tp": lambda a: a.tp(), "tp_raw": lambda a: a.tp(smooth=False), "fp": lambda a: a.fp()}
+        if D:
+            calls.update({"dp": lambda a: a.dp(), "dpm": lambda a: a.dpm()})
+        for how, (a0, a1) in (("DataArray", (batch.spec, rev.spec)), ("Dataset", (batch.to_dataset(name="efth").spec, rev.to_dataset(name="efth").spec))):
+            for op, fn in calls.items():
+                try:
+                    x, y = np.asarray(fn(a0).values, float), np.asarray(fn(a1).values, float)
+                except Exception as ex:  # noqa
+                    ctx.violation({"op": op, "via": how, "freq_stored": "descending", "raised": type(ex).__name__}, "%s via %s raised %s with the frequencies stored descending" % (op, how, type(ex).__name__))
+                    continue
+                for v, p, q in zip(sub, x, y):
+                    if len(v["peaks"]) > 1 and op != "dp":
+                        continue          # exactly tied peaks: any of them (the choice may follow the storage order)
+                    ctx.case(("desc-freq", op, how, sc.fp_of(v)), True)
+                    same = (np.isnan(p) and np.isnan(q)) or (abs(p - q) <= 3e-6 * max(1.0, abs(p))) or (op in ("dp", "dpm") and abs((p - q + 180) % 360 - 180) < 1e-3)
+                    if same or (op == "dp" and len(v["dp"]) > 1):
+                        ctx.replayed()
+                    else:
+                        ctx.violation({"op": op, "via": how, "freq_stored": "descending"},
+                                      "%s via %s is %.9g with the frequencies stored descending, %.9g ascending" % (op, how, q, p), {"F": v["F"], "D": v["D"], "E": v["E"]})
     ctx.assume("peak statistics are float32 in the library: compared at 3e-6 relative; alpha only where every f/fp is at least 2e-3 away "
                "from 1.35 and 2; among exactly tied peaks / directions any is accepted")
